@@ -154,8 +154,32 @@ struct Gate {
   did: String,
 }
 
+type HandlerFailure = Box<dyn std::error::Error + Send + Sync + 'static>;
+
+/// Half of the scripted failures are plain text errors; the other half are errors of the resolver's own error type:
+/// what a handler that delegates to an inner `Resolver` without a handler for the method returns.
+fn fails_with_resolver_error(did: &str) -> bool {
+  did.len() % 2 == 1
+}
+
+/// The error an inner resolver without any handler returns for `did`.
+fn inner_resolver_error(did: &str) -> Option<identity_resolver::Error> {
+  use futures::FutureExt;
+  let did = CoreDID::parse(did).ok()?;
+  let inner: identity_resolver::Resolver<CoreDocument> = identity_resolver::Resolver::new();
+  let result = inner.resolve(&did).now_or_never()?;
+  result.err()
+}
+
+fn failure_text(handler: u8, did: &str) -> String {
+  match inner_resolver_error(did) {
+    Some(e) if fails_with_resolver_error(did) => e.to_string(),
+    _ => scripted_error(handler, did),
+  }
+}
+
 impl Future for Gate {
-  type Output = Result<CoreDocument, String>;
+  type Output = Result<CoreDocument, HandlerFailure>;
   fn poll(self: Pin<&mut Self>, cx: &mut Context<'_>) -> Poll<Self::Output> {
     let mut board = lock(&self.shared);
     if board.released.contains(&self.did) {
@@ -164,6 +188,12 @@ impl Future for Gate {
         .get(&(self.handler, self.did.clone()))
         .cloned()
         .unwrap_or_else(|| Err(format!("unscripted call: handler {} for {}", self.handler, self.did)));
+      let answer = answer.map_err(|text| match inner_resolver_error(&self.did) {
+        Some(e) if fails_with_resolver_error(&self.did) && text == scripted_error(self.handler, &self.did) => {
+          Box::new(e) as HandlerFailure
+        }
+        _ => HandlerFailure::from(text),
+      });
       Poll::Ready(answer)
     } else {
       let entry = (self.did.clone(), cx.waker().clone());
@@ -436,14 +466,21 @@ fn check_single_result(
     Expect::Harness { handler, fail: true } => match result {
       Ok(doc) => vfail!(obs, "handler-error-ignored", "{via}: handler {handler} failed for {did} but {doc} came back"),
       Err(e) => match e.error_cause() {
-        ErrorCause::HandlerError { source, .. } => vensure!(
-          obs,
-          source.to_string() == scripted_error(*handler, did),
-          "result-is-not-the-handlers",
-          "{via}: handler error for {did} carries {:?}, scripted was {:?}",
-          source.to_string(),
-          scripted_error(*handler, did)
-        ),
+        ErrorCause::HandlerError { source, .. } => {
+          obs.label(if failure_text(*handler, did) == scripted_error(*handler, did) {
+            "handler-fails:text-error"
+          } else {
+            "handler-fails:resolver-error"
+          });
+          vensure!(
+            obs,
+            source.to_string() == failure_text(*handler, did),
+            "result-is-not-the-handlers",
+            "{via}: handler error for {did} carries {:?}, scripted was {:?}",
+            source.to_string(),
+            failure_text(*handler, did)
+          )
+        }
         other => vfail!(obs, "handler-error-wrong-cause", "{via}: handler {handler} failed for {did} but the cause is {other:?}"),
       },
     },
